@@ -2,7 +2,7 @@
 Require Extraction.
 Require Import ExtrOcamlBasic.
 From Coq Require Import List ZArith.
-From Rjson Require Import Base Helpers Machine Api Compat Round Fp FpSpec ValueReader.
+From Rjson Require Import Base Helpers Machine Api Compat Round Fp FpSpec ValueReader Cost.
 From RjsonRun Require Import Inst.
 Extraction "model.ml"
   Z.add Z.mul Z.sub Z.opp Z.div_eucl Z.of_nat Z.to_nat Z.eqb Z.ltb Z.leb Z.of_N
@@ -14,5 +14,5 @@ Extraction "model.ml"
   x_ReadNull x_ReadBool x_appendRemainderOfString x_UnescapeStringContent x_ReadStringBytes x_ReadString
   StdLibCompatibleString StdLibCompatibleStringBytes sanitize compat_tree
   fpT x_ReadFloat64 x_DecodeFloat64 x_ReadValue x_ReadObject x_ReadArray x_ReadValue_fast x_ReadObject_fast x_ReadArray_fast
-  readFloat_m atof64exact_m eiselLemire64_m set_m floatBits_m ParseJSONFloatPrefix_m parse_spec_fast
+  readFloat_m atof64exact_m eiselLemire64_m set_m floatBits_m ParseJSONFloatPrefix_m parse_spec_fast remembered_prev hints_prev
   x_DecodeInt64 x_DecodeInt32 x_DecodeInt x_DecodeUint64 x_DecodeUint32 x_DecodeUint x_DecodeBool x_DecodeString.
